@@ -76,6 +76,9 @@ def _split_alts(s):
     return out
 
 
+REFERENCE_ADTS = set()      # struct paths of the reference tree (set by core.Ctx from rules/known_functions.json)
+
+
 class Prov:
     def __init__(self, fn):
         self.fn = fn
@@ -198,6 +201,10 @@ class Prov:
             tail = nm.split("::")[-1]
             if tail in ("deref", "deref_mut", "as_ref", "as_mut", "borrow", "borrow_mut", "clone", "into", "from", "copied", "cloned", "branch", "from_residual", "from_output") and len(args) >= 1:
                 return args[0]
+            if tail == "size_of" and nm.endswith("mem::size_of") and not args:
+                sz = {"u8": 1, "i8": 1, "u16": 2, "i16": 2, "u32": 4, "i32": 4, "u64": 8, "i64": 8, "usize": 8, "isize": 8, "u128": 16, "i128": 16}.get(((t.get("callee_targs") or [{}])[0] or {}).get("s"))
+                if sz:
+                    return "const:%d" % sz
             if tail in ("unwrap", "expect") and len(args) >= 1:
                 return "ok(%s)" % args[0]
             if tail in ("unwrap_err", "expect_err") and len(args) >= 1:
@@ -219,7 +226,27 @@ class Prov:
             return self.place(rv["place"], depth, seen, at)
         if k == "binop":
             op = rv["op"].replace("WithOverflow", "")
-            return "%s(%s,%s)" % (op, self.operand(rv["a"], depth + 1, seen, at), self.operand(rv["b"], depth + 1, seen, at))
+            a_, b_ = self.operand(rv["a"], depth + 1, seen, at), self.operand(rv["b"], depth + 1, seen, at)
+            # shifts and masks by constants are the division / multiplication / remainder they stand for
+            if op in ("Shr", "Shl", "BitAnd", "ShrUnchecked", "ShlUnchecked"):
+                from core import numeric
+                def cval(x):
+                    m_ = re.match(r"^const:(\d+)(?:_[ui]\w+)?$", numeric(x))
+                    return int(m_.group(1)) if m_ else None
+                kb = cval(b_)
+                if op.startswith("Shr") and kb is not None and kb < 64:
+                    return "Div(%s,const:%d)" % (a_, 1 << kb)
+                if op.startswith("Shl") and kb is not None and kb < 64:
+                    return "Mul(%s,const:%d)" % (a_, 1 << kb)
+                if op == "BitAnd":
+                    for x_, y_ in ((a_, b_), (b_, a_)):
+                        ky = cval(y_)
+                        if ky is not None and ky > 0 and (ky & (ky + 1)) == 0:
+                            return "Rem(%s,const:%d)" % (x_, ky + 1)
+                        m_ = re.match(r"^Sub\((.*),const:1\)$", y_)
+                        if m_ and cval(m_.group(1)) is not None and cval(m_.group(1)) & (cval(m_.group(1)) - 1) == 0:
+                            return "Rem(%s,const:%d)" % (x_, cval(m_.group(1)))
+            return "%s(%s,%s)" % (op, a_, b_)
         if k == "unop":
             if rv["op"] == "PtrMetadata":
                 n_ = self._array_len(rv["a"])
@@ -284,6 +311,17 @@ class Prov:
                         continue
                     s = "overflowed(%s)" % s
                     continue
+                # a field of a struct value built right here (`Window { id, offset }.offset`): the operand it was built from
+                # (only for structs the reference tree does not have - a parameter object introduced by a refactoring;
+                # the library's own structs are mutable state, and their field is not what the constructor put there)
+                if isinstance(e.get("i"), int) and e.get("owner") and e.get("owner") != "tuple" and s.endswith(")") and e["owner"] not in REFERENCE_ADTS:
+                    short = e["owner"].split("::")[-1]
+                    head = "%s::%s(" % (short, short)
+                    if s.startswith(head):
+                        parts = _split_top(s[len(head):-1])
+                        if e["i"] < len(parts):
+                            s = parts[e["i"]]
+                            continue
                 if e.get("owner") == "tuple" and s.startswith("tuple(") and s.endswith(")") and e["name"].isdigit():
                     parts = _split_top(s[6:-1])
                     if int(e["name"]) < len(parts):
